@@ -1,7 +1,7 @@
 """Single source for MANIFEST.json (bin/mkmanifest)."""
 
 HOOK_COMMITS = ["673019b", "625d9ba", "1d37b76", "2f6eef4", "9ec354b"]
-FIX_COMMITS = ["12c9092", "3e9b6da", "a55c868", "5489af8", "06cfd24", "dc51f1b", "72a27af", "81e61a6", "9f27a11", "fea871f"]   # filled by bin/mkmanifest callers: /repo commits that add guarded hooks
+FIX_COMMITS = ["12c9092", "3e9b6da", "a55c868", "5489af8", "06cfd24", "dc51f1b", "72a27af", "81e61a6", "9f27a11", "fea871f", "23191e8", "7c321f5", "b21055a"]   # filled by bin/mkmanifest callers: /repo commits that add guarded hooks
 
 NOTES = ("All checks: bin/check <id>. Exit 0 = held, 1 = VIOLATION line + replay file, 2 = tool error (never a verdict). "
          "Specs under spec/<family>/, harness under harness/ (path deps on /repo; rebuilt by every check). "
@@ -168,6 +168,10 @@ CHECKS["C44"] = dict(engine="tlc+vh", level="model_checking", ref="4.19", techni
 CHECKS["C04"] = dict(engine="tlc+vh", level="model_checking", ref="4.3", technique="TLA+ spec (Partition.tla): key-table operator vs declarative per-key reference model-checked with TLC (faulty shared-buffer and colliding-key variants must be rejected); TLC-generated (operator class, key type, interleaved stream) cases (PartGen.tla) replayed on the real engine as a differential: whole partitioned run vs union of runs on each key's sub-sequence",
                      text="Differential on the real engine over 11 operator classes (count, sliding count, tumbling, sliding, session windows, running aggregate, having, 2/3-step sequences with cross-alias predicates, Kleene) x 3 key types (strings, integers, look-alike numeric strings) x interleavings of up to 3 keys plus events without the key field: the multiset of outputs equals the union of the per-key runs.",
                      note="Trusted: the per-key runs of the same engine as reference (as the property is stated). Bounded: streams of 10 (thorough 13) events; .not clauses excluded because C01 defines them as stream-global.")
+
+CHECKS["C18"] = dict(engine="tlc+cli", level="exploration", ref="4.9", technique="TLA+ spec (ParSim.tla): design model of run_simulation's multi-worker branches (hash distribution for every hash function, chunking) model-checked for output-bag equality, with faulty distributions rejected; TLC-generated (pipeline class, key kind, mode, worker count, interleaved stream) cases (ParGen.tla) run through the real `varpulis simulate` binary with 1 and N workers, auto-selected and explicit --partition-by",
+                     text="The binary built from /repo is run on every generated case with -w 1 and -w N (2..8), preload and streaming; the listed output events (guarded for completeness by the engines' own emitted counter from a --quiet run) must be the same multiset. 9 pipeline classes: stateless filter, derived chain, two streams, partitioned count / sliding-count windows, running aggregate, 2-step sequences (with cross-alias predicate), Kleene.",
+                     note="Trusted: the binary's 'Output Events Summary' as the observation of its outputs. Bounded: 40 walks (thorough 600) x streams of 12 (16) events over 4 keys; all events carry the key; time windows excluded (immediate mode has no event time).")
 
 NOT_APPLICABLE = {
     "C41": "parser totality over arbitrary strings: no state/transition system to specify; a TLA+ model would only enumerate token strings (fuzzing under another name)",
